@@ -15,6 +15,7 @@ ENGINES = {
     "C03": ("eng_asm", "run"),
     "C04": ("eng_machine", "run"),
     "C12": ("eng_epr", "run"),
+    "C13": ("eng_ctrl", "run"),
     "C15": ("eng_msg", "run"),
     "C16": ("eng_range", "run"),
     "C17": ("eng_text", "run"),
